@@ -79,22 +79,67 @@ type deferGen struct {
 	kinds   map[string]int
 }
 
-// GenDeferOperation: a valid query from fedlab's generator, then @defer is put on existing inline
-// fragments / fragment spreads and on new wrappers (anonymous inline fragment, inline fragment
-// with the enclosing type as condition, new named fragment) around random subsets of selection
-// sets at every depth -- so defers come out nested, as siblings, inside lists, under abstract
-// types and around entity boundaries.  A part carries label / if:true / if:false / if:$var.
+// Placement classes of the directed part of the generator (where a @defer is forced to sit relative to the
+// list fields above it).
+const (
+	PlaceAny        = iota // no forced placement: the random wrappers only
+	PlaceOnItems           // directly on the items of a list field
+	PlaceBelowItems        // one or more object levels below the items of a list field
+	PlaceBelowNested       // below two (or more) list levels: a list inside list items, or a list of lists
+	PlaceTypeCond          // under a narrowing type condition (fragment on a member of an abstract type)
+	PlaceTypeCondList      // under a narrowing type condition AND at least one object level below list items
+	nPlace
+)
+
+var placeNames = []string{"any", "on_items", "below_items", "below_nested", "typecond", "typecond_list"}
+
+// GenDeferOperation: a valid query from fedlab's operation generator drawn from the same feature space as the
+// ordinary (C01) operations -- aliases, named and inline fragments, type conditions, __typename, duplicated
+// fields, @skip/@include with literals and variables, depth up to 5 -- then
+//  1. an alias pass (one of: none / list fields and their ancestors / any field / every composite field), with
+//     one fresh alias per (response path, response key) so that fields that merged before still merge;
+//  2. @defer on existing inline fragments / fragment spreads and on new wrappers (anonymous inline fragment,
+//     inline fragment with the enclosing type as condition, new named fragment) around random subsets of
+//     selection sets at every depth -- nested, sibling, inside lists, under abstract types, around entity
+//     boundaries; a part carries label / if:true / if:false / if:$var;
+//  3. a forced @defer wrapper at a selection set of a placement class chosen per operation (Place*): the base
+//     operation is redrawn (up to 12 times) until it has such a selection set.
 func GenDeferOperation(r *common.Rand, c *fl.Config, u *fl.Universe) (*fl.Operation, map[string]int) {
-	k := fl.Knobs{"fragments": true, "inlinefragments": true, "typename": true, "deep": true, "dupfields": true}
-	if r.Chance(1, 3) {
-		k["aliases"] = true
+	kinds := map[string]int{}
+	place := PlaceAny
+	if r.Chance(2, 3) {
+		place = 1 + r.Pick(nPlace-1)
 	}
-	if r.Chance(1, 4) {
-		k["skipinclude"] = true
-		k["variables"] = true
+	var op *fl.Operation
+	found := false
+	// a class that the configuration cannot offer (no abstract type, no list below list items) gives way to the next one
+	for shift := 0; shift < 3 && !found; shift++ {
+		if shift > 0 {
+			place = []int{PlaceBelowItems, PlaceOnItems}[shift-1]
+		}
+		for try := 0; try < 8 && !found; try++ {
+			k := fl.Knobs{"fragments": true, "inlinefragments": true, "typename": true, "deep": true, "dupfields": true}
+			if r.Chance(1, 2) {
+				k["aliases"] = true
+			}
+			if r.Chance(1, 3) {
+				k["skipinclude"] = true
+				k["variables"] = true
+			}
+			op = fl.GenOperation(r, k, c, u)
+			found = place == PlaceAny || len(sitesOf(c, op, place)) > 0
+		}
 	}
-	op := fl.GenOperation(r, k, c, u)
-	g := &deferGen{r: r, c: c, op: op, density: 3 + r.Pick(8), kinds: map[string]int{}}
+	if !found {
+		kinds["place_unavailable"]++
+		place = PlaceAny
+	}
+	kinds["place."+placeNames[place]]++
+	g := &deferGen{r: r, c: c, op: op, density: 3 + r.Pick(8), kinds: kinds}
+	if place != PlaceAny {
+		g.density = 1 + r.Pick(6)
+	}
+	g.aliasPass(r.Pick(4))
 	g.nfrag = len(op.Frags)
 	if op.Variables != nil {
 		g.vars = append(g.vars, op.Variables.Members...)
@@ -106,6 +151,20 @@ func GenDeferOperation(r *common.Rand, c *fl.Config, u *fl.Universe) (*fl.Operat
 	}
 	g.inFrag = false
 	op.Sels = g.sels(c.Super.Query, op.Sels, 0)
+	if place != PlaceAny {
+		if sites := sitesOf(c, op, place); len(sites) > 0 {
+			st := common.PickOf(r, sites)
+			g.inFrag = st.inFrag
+			*st.sels = g.wrapSome(st.typ, *st.sels)
+			g.inFrag = false
+			if st.aliasAbove {
+				kinds["forced_with_alias_above"]++
+			}
+			if st.aliasOnList {
+				kinds["forced_with_aliased_list"]++
+			}
+		}
+	}
 	if g.ndefer == 0 {
 		// force one
 		op.Sels = []*fl.Sel{{Kind: fl.SInline, Sels: op.Sels, Dirs: []fl.Dir{g.deferDir()}}}
@@ -113,7 +172,240 @@ func GenDeferOperation(r *common.Rand, c *fl.Config, u *fl.Universe) (*fl.Operat
 	}
 	op.Variables = fl.JO(g.vars...)
 	g.kinds["defers"] = g.ndefer
+	for _, cl := range []int{PlaceOnItems, PlaceBelowItems, PlaceBelowNested, PlaceTypeCond, PlaceTypeCondList} {
+		n, na := 0, 0
+		for _, st := range sitesOf(c, op, cl) {
+			if st.deferred {
+				n++
+				if st.aliasAbove {
+					na++
+				}
+			}
+		}
+		if n > 0 {
+			kinds["has_defer."+placeNames[cl]]++
+		}
+		if na > 0 {
+			kinds["has_defer_alias_above."+placeNames[cl]]++
+		}
+	}
 	return op, g.kinds
+}
+
+// site: one selection set of the operation with what lies above it.
+type site struct {
+	sels        *[]*fl.Sel
+	typ         string
+	inFrag      bool // inside a named fragment definition
+	lists       int  // list levels above (a list of lists counts twice)
+	below       int  // field levels between the innermost list field and this selection set (0 = the items)
+	cond        bool // a narrowing type condition above
+	aliasAbove  bool // an aliased field among the field ancestors
+	aliasOnList bool // the outermost list field, or a field above it, is aliased
+	deferred    bool // a direct child of this selection set is a fragment with @defer
+}
+
+func listDepth(t *fl.TypeRef) int {
+	n := 0
+	for t != nil {
+		t = t.Nullable()
+		if t.Kind != fl.TList {
+			break
+		}
+		n++
+		t = t.Of
+	}
+	return n
+}
+
+// sitesOf lists the selection sets of placement class cl (named fragments are entered at every spread).
+func sitesOf(c *fl.Config, op *fl.Operation, cl int) []site {
+	frags := map[string]*fl.FragDef{}
+	for _, f := range op.Frags {
+		frags[f.Name] = f
+	}
+	var out []site
+	seen := map[*[]*fl.Sel]bool{}
+	var walk func(sels *[]*fl.Sel, st site, depth int)
+	walk = func(sels *[]*fl.Sel, st site, depth int) {
+		if depth > 30 || len(*sels) == 0 {
+			return
+		}
+		st.sels = sels
+		st.deferred = false
+		for _, s := range *sels {
+			if s.Kind != fl.SField && hasDefer(s) {
+				st.deferred = true
+			}
+		}
+		ok := false
+		switch cl {
+		case PlaceOnItems:
+			ok = st.lists >= 1 && st.below == 0
+		case PlaceBelowItems:
+			ok = st.lists >= 1 && st.below >= 1
+		case PlaceBelowNested:
+			ok = st.lists >= 2
+		case PlaceTypeCond:
+			ok = st.cond
+		case PlaceTypeCondList:
+			ok = st.cond && st.lists >= 1 && st.below >= 1
+		}
+		if ok && !seen[sels] {
+			seen[sels] = true
+			out = append(out, st)
+		}
+		td := c.Super.Type(st.typ)
+		for _, s := range *sels {
+			switch s.Kind {
+			case fl.SField:
+				if len(s.Sels) == 0 || td == nil {
+					continue
+				}
+				fd := td.Field(s.Name)
+				if fd == nil {
+					continue
+				}
+				n := st
+				n.typ = fd.Type.Base()
+				if s.Alias != "" {
+					n.aliasAbove = true
+					if st.lists == 0 {
+						n.aliasOnList = true // stays only if a list follows (checked through lists >= 1 by the users)
+					}
+				}
+				if ld := listDepth(fd.Type); ld > 0 {
+					n.lists += ld
+					n.below = 0
+				} else if st.lists > 0 {
+					n.below++
+				}
+				walk(&s.Sels, n, depth+1)
+			case fl.SInline:
+				n := st
+				if s.On != "" && s.On != st.typ {
+					n.typ, n.cond = s.On, true
+				}
+				walk(&s.Sels, n, depth+1)
+			case fl.SSpread:
+				f := frags[s.Name]
+				if f == nil {
+					continue
+				}
+				n := st
+				n.inFrag = true
+				if f.On != st.typ {
+					n.typ, n.cond = f.On, true
+				}
+				walk(&f.Sels, n, depth+1)
+			}
+		}
+	}
+	walk(&op.Sels, site{typ: c.Super.Query}, 0)
+	return out
+}
+
+// aliasPass renames response keys: mode 0 none (what fedlab's own alias knob produced stays), 1 list-typed
+// composite fields (2/3) and the composite fields above them (1/3), 2 any field (1/3), 3 every composite field.
+// One fresh alias per (response path, old response key): occurrences that merged before still merge.  Inside a
+// named fragment the path starts at the fragment (fresh aliases never collide with anything at a spread site).
+func (g *deferGen) aliasPass(mode int) {
+	g.kinds[fmt.Sprintf("alias_mode=%d", mode)]++
+	if mode == 0 {
+		return
+	}
+	assigned := map[string]string{}
+	n := 0
+	var walk func(typ string, sels []*fl.Sel, path string)
+	var hasListBelow func(typ string, s *fl.Sel, depth int) bool
+	hasListBelow = func(typ string, s *fl.Sel, depth int) bool {
+		// is there a list-typed composite field in the subtree of the composite field s (of parent type typ)?
+		if depth > 12 {
+			return false
+		}
+		td := g.c.Super.Type(typ)
+		for _, x := range s.Sels {
+			switch x.Kind {
+			case fl.SField:
+				if td == nil || len(x.Sels) == 0 {
+					continue
+				}
+				if fd := td.Field(x.Name); fd != nil {
+					if fd.Type.IsList() || hasListBelow(fd.Type.Base(), x, depth+1) {
+						return true
+					}
+				}
+			case fl.SInline:
+				t := typ
+				if x.On != "" {
+					t = x.On
+				}
+				if hasListBelow(t, &fl.Sel{Sels: x.Sels}, depth+1) {
+					return true
+				}
+			}
+		}
+		return false
+	}
+	walk = func(typ string, sels []*fl.Sel, path string) {
+		td := g.c.Super.Type(typ)
+		for _, s := range sels {
+			switch s.Kind {
+			case fl.SField:
+				key := s.Name
+				if s.Alias != "" {
+					key = s.Alias
+				}
+				var fd *fl.FieldDef
+				if td != nil {
+					fd = td.Field(s.Name)
+				}
+				composite := len(s.Sels) > 0 && fd != nil
+				id := path + "/" + key
+				al, done := assigned[id]
+				if !done {
+					want := false
+					switch mode {
+					case 1:
+						if composite && fd.Type.IsList() {
+							want = g.r.Chance(2, 3)
+						} else if composite && hasListBelow(fd.Type.Base(), s, 0) {
+							want = g.r.Chance(1, 3)
+						}
+					case 2:
+						want = g.r.Chance(1, 3)
+					case 3:
+						want = composite
+					}
+					if want {
+						n++
+						al = fmt.Sprintf("a%d", n)
+						g.kinds["aliased"]++
+						if composite && fd.Type.IsList() {
+							g.kinds["aliased_list"]++
+						}
+					}
+					assigned[id] = al
+				}
+				if al != "" {
+					s.Alias = al
+				}
+				if composite {
+					walk(fd.Type.Base(), s.Sels, id)
+				}
+			case fl.SInline:
+				t := typ
+				if s.On != "" {
+					t = s.On
+				}
+				walk(t, s.Sels, path)
+			}
+		}
+	}
+	for _, f := range g.op.Frags {
+		walk(f.On, f.Sels, "frag:"+f.Name)
+	}
+	walk(g.c.Super.Query, g.op.Sels, "")
 }
 
 func (g *deferGen) deferDir() fl.Dir {
@@ -193,65 +485,76 @@ func (g *deferGen) sels(typ string, in []*fl.Sel, depth int) []*fl.Sel {
 		if len(out) == 0 || !g.r.Chance(g.density, 16) {
 			continue
 		}
-		// choose a contiguous run (keeps the relative order of the rest) or a scattered subset
-		var pick []bool
-		if g.r.Chance(2, 3) {
-			a := g.r.Pick(len(out))
-			b := a + 1 + g.r.Pick(len(out)-a)
-			pick = make([]bool, len(out))
-			for i := a; i < b; i++ {
-				pick[i] = true
-			}
-		} else {
-			pick = make([]bool, len(out))
-			n := 0
-			for i := range out {
-				if g.r.Chance(1, 2) {
-					pick[i] = true
-					n++
-				}
-			}
-			if n == 0 {
-				pick[g.r.Pick(len(out))] = true
-			}
-		}
-		var inner, rest []*fl.Sel
-		first := -1
-		for i, s := range out {
-			if pick[i] {
-				if first < 0 {
-					first = len(rest)
-				}
-				inner = append(inner, s)
-			} else {
-				rest = append(rest, s)
-			}
-		}
-		var w *fl.Sel
-		switch g.r.Pick(3) {
-		case 0:
-			w = &fl.Sel{Kind: fl.SInline, Sels: inner}
-			g.kinds["wrap_anon"]++
-		case 1:
-			w = &fl.Sel{Kind: fl.SInline, On: typ, Sels: inner}
-			g.kinds["wrap_typed"]++
-		default:
-			g.nfrag++
-			name := fmt.Sprintf("D%d", g.nfrag)
-			g.op.Frags = append(g.op.Frags, &fl.FragDef{Name: name, On: typ, Sels: inner})
-			w = &fl.Sel{Kind: fl.SSpread, Name: name}
-			g.kinds["wrap_named"]++
-		}
-		w.Dirs = []fl.Dir{g.deferDir()}
-		if td != nil && (td.Kind == fl.KInterface || td.Kind == fl.KUnion) {
-			g.kinds["under_abstract"]++
-		}
+		out = g.wrapSome(typ, out)
 		if depth > 0 {
 			g.kinds["nested_depth"]++
 		}
-		out = append(append(append([]*fl.Sel{}, rest[:first]...), w), rest[first:]...)
 	}
 	return out
+}
+
+// wrapSome moves a random non-empty subset of the selections into a new deferred wrapper (anonymous inline
+// fragment / inline fragment on the enclosing type / new named fragment) that takes the place of the first
+// selection moved.
+func (g *deferGen) wrapSome(typ string, out []*fl.Sel) []*fl.Sel {
+	if len(out) == 0 {
+		return out
+	}
+	td := g.c.Super.Type(typ)
+	// choose a contiguous run (keeps the relative order of the rest) or a scattered subset
+	var pick []bool
+	if g.r.Chance(2, 3) {
+		a := g.r.Pick(len(out))
+		b := a + 1 + g.r.Pick(len(out)-a)
+		pick = make([]bool, len(out))
+		for i := a; i < b; i++ {
+			pick[i] = true
+		}
+	} else {
+		pick = make([]bool, len(out))
+		n := 0
+		for i := range out {
+			if g.r.Chance(1, 2) {
+				pick[i] = true
+				n++
+			}
+		}
+		if n == 0 {
+			pick[g.r.Pick(len(out))] = true
+		}
+	}
+	var inner, rest []*fl.Sel
+	first := -1
+	for i, s := range out {
+		if pick[i] {
+			if first < 0 {
+				first = len(rest)
+			}
+			inner = append(inner, s)
+		} else {
+			rest = append(rest, s)
+		}
+	}
+	var w *fl.Sel
+	switch g.r.Pick(3) {
+	case 0:
+		w = &fl.Sel{Kind: fl.SInline, Sels: inner}
+		g.kinds["wrap_anon"]++
+	case 1:
+		w = &fl.Sel{Kind: fl.SInline, On: typ, Sels: inner}
+		g.kinds["wrap_typed"]++
+	default:
+		g.nfrag++
+		name := fmt.Sprintf("D%d", g.nfrag)
+		g.op.Frags = append(g.op.Frags, &fl.FragDef{Name: name, On: typ, Sels: inner})
+		w = &fl.Sel{Kind: fl.SSpread, Name: name}
+		g.kinds["wrap_named"]++
+	}
+	w.Dirs = []fl.Dir{g.deferDir()}
+	if td != nil && (td.Kind == fl.KInterface || td.Kind == fl.KUnion) {
+		g.kinds["under_abstract"]++
+	}
+	return append(append(append([]*fl.Sel{}, rest[:first]...), w), rest[first:]...)
 }
 
 // StripDefer returns a copy of the operation without any @defer directive.
